@@ -34,17 +34,21 @@ PROP = 'C08'
 
 META = dict(
     claimed=True,
-    text='Kernel-checked theorems about the Lean model of templatecompiler.py: the compiled-template cache is transparent, '
-         'sound and bounded for every request history and every limit (0 included); the decoder and encoder primitives '
-         '(uncompressed and compressed) satisfy the frame law (they neither read nor write operator registers); the two local '
-         'simulation steps between exec-of-compiled and the interpreted walk hold for every register state: one element '
-         '(201/202/203/204/207/208 in force, QA links) and one bitmap-definition step (PARTIAL: the composition over whole '
-         'ScopeClosed templates and load(dump c) = c are stated, not proved). The whole-template property is covered by the '
-         'oracle compiled-vs-uncompiled and reloaded-vs-original on the implementation (generated templates of every operator, '
+    text='Kernel-checked theorems about the Lean model of templatecompiler.py, for ALL inputs: (1) for every ScopeClosed '
+         'template (elements, sequences, nested fixed/delayed replication, operators 201-208, 221, the bitmap-definition machine, '
+         '222-225/232 with marker operators, 235-237) and every primitive set satisfying the frame law, executing the compiled '
+         'program equals the interpreted walk (same bits, labels, values, links or the same error): C08_exec_compile_eq_walk, '
+         'proved by mutual induction over the template tree with the compile-time/run-time register relation; operator-free '
+         'templates need no scope hypothesis (stage A); (2) hence decodeDataC = decodeData and encodeDataC = encodeData, '
+         'uncompressed and compressed; (3) load(dump c) = c for every well-formed program, every compiled program is well formed, '
+         'and decode/encode through dump/load equal the uncompiled ones; (4) the compiled-template cache is transparent, sound and '
+         'bounded for every request history and every limit (0 included); (5) the decoder and encoder primitives satisfy the frame '
+         'law. The link model-implementation is the checked correspondence: oracle compiled-vs-uncompiled and '
+         'reloaded-vs-original on the implementation (generated templates of every operator, '
          'Table D rows of versions >= 19 with forced replication factors, corpus, cache limits 0/1/2/50 with random message '
-         'orders, decode and encode) and by model-vs-implementation correspondence of statement lists (to_dict vs dump), exec '
+         'orders, decode and encode) and model-vs-implementation correspondence of statement lists (to_dict vs dump), exec '
          'results (also after dump/load) and cache contents.',
-    technique='Lean 4 theorems (frame law of the primitives, local simulation steps, induction over request histories) + metamorphic oracle on the implementation + checked model/implementation correspondence',
+    technique='Lean 4 theorems (frame law of the primitives, simulation exec-of-compiled vs walk by mutual structural induction over templates, dump/load round trip by induction over statements, induction over request histories) + metamorphic oracle on the implementation + checked model/implementation correspondence',
     note='The model mirrors templatecompiler.py after the fixes F5, F6, F7, F7b, F7c; a zero-length bitmap defined by a delayed replication is the open finding F7d. '
          'ScopeClosed is decided by the model (compileList with the scope check); templates outside it are counted, not compared.',
 )
